@@ -221,7 +221,7 @@ Definition obl_done (k : callid) (p : pair) (q : pc) : nat :=
   end.
 
 Definition ev_res (k : callid) (p : pair) (e : event) : nat :=
-  match e with EHandoff k' p' | ETimeout k' p' => is_kp k' p' k p | _ => 0 end.
+  match e with EHandoff k' p' | ETimeout k' p' _ => is_kp k' p' k p | _ => 0 end.
 Definition ev_handoff (k : callid) (p : pair) (e : event) : nat :=
   match e with EHandoff k' p' => is_kp k' p' k p | _ => 0 end.
 Definition ev_done (k : callid) (p : pair) (e : event) : nat :=
@@ -565,13 +565,13 @@ Proof.
   - destruct (IH H) as (o' & evs' & subs' & Hi & Hp); exists o', evs', subs'; split; [right|]; assumption.
 Qed.
 
-Lemma in_res_count k p tr : In (EHandoff k p) tr \/ In (ETimeout k p) tr -> 1 <= total (ev_res k p) tr.
+Lemma in_res_count k p tr : In (EHandoff k p) tr \/ (exists b, In (ETimeout k p b) tr) -> 1 <= total (ev_res k p) tr.
 Proof.
-  induction tr as [|e tr IH]; [intros [[]|[]]|]. rewrite total_cons. intros [[->|H]|[->|H]].
+  induction tr as [|e tr IH]; [intros [[]|[b []]]|]. rewrite total_cons. intros [[->|H]|[b [->|H]]].
   - cbn. unfold is_kp. destruct (callid_eq_dec k k); [|congruence]. destruct (pair_eq_dec p p); [lia|congruence].
   - specialize (IH (or_introl H)). lia.
   - cbn. unfold is_kp. destruct (callid_eq_dec k k); [|congruence]. destruct (pair_eq_dec p p); [lia|congruence].
-  - specialize (IH (or_intror H)). lia.
+  - specialize (IH (or_intror (ex_intro _ b H))). lia.
 Qed.
 
 Lemma pub_ps_sub sl evs subs p : In p (pub_ps sl evs subs) -> In (p_sub p) subs.
@@ -579,7 +579,7 @@ Proof. unfold pub_ps. destruct sl; [apply pairs_slice_sub|apply pairs_one_sub]. 
 
 Lemma resolved_was_subscribed timeout cb defbuf progs s k p :
   let c := run (init timeout cb defbuf progs) s in
-  In (EHandoff k p) (c_trace c) \/ In (ETimeout k p) (c_trace c) ->
+  In (EHandoff k p) (c_trace c) \/ (exists b, In (ETimeout k p b) (c_trace c)) ->
   exists o evs subs, In (ERLock k o evs subs) (c_trace c) /\ In p (pub_ps (fst (k_var k)) evs subs) /\ In (p_sub p) subs.
 Proof.
   intros c H. apply in_res_count in H.
@@ -727,3 +727,507 @@ Lemma wait_returns_after timeout cb defbuf progs s later k earlier :
   snd (k_var k) <> Async ->
   forall p, total (ev_exp k p) earlier = total (ev_done k p) earlier.
 Proof. intros E Hk p. eapply ret_ok_run; eauto. Qed.
+(* channels are closed only by the close steps of Unsub/UnsubAll *)
+Definition closed_logged (c : config) : Prop :=
+  forall ci, is_closed (c_chans c) ci -> exists t o, In (EClose t o ci) (c_trace c).
+
+Lemma closed_logged_step c t th c' :
+  c_panic c = None -> nth_error (c_threads c) t = Some th -> trans c t th c' -> closed_logged c -> closed_logged c'.
+Proof.
+  intros Hp Ht T CL.
+  destruct T; try match goal with S : send_trans _ _ _ _ _ _ _ _ _ _ |- _ => inv_send S end;
+    try exact CL; unfold closed_logged; norm; intros xci (xchn & Hx & Hc).
+  all: try (destruct (CL xci) as (xt & xo & Hi); [exists xchn; auto|]; exists xt, xo; cbn [In]; auto; fail).
+  all: try (lookup Hx; cbn [ch_closed] in Hc;
+            first [ discriminate
+                  | destruct (CL xci) as (xt & xo & Hi); [eexists; split; eauto|]; exists xt, xo; cbn [In]; auto
+                  | eexists; eexists; left; reflexivity ]; fail).
+  lookup Hx; cbn [ch_closed] in Hc.
+  - destruct (CL ci) as (xt & xo & Hi); [exists chn; auto|]. exists xt, xo. right; auto.
+  - destruct (CL xci) as (xt & xo & Hi); [exists xchn; auto|]. exists xt, xo. right; auto.
+Qed.
+
+Lemma closed_only_by_unsub timeout cb defbuf progs s ci :
+  is_closed (c_chans (run (init timeout cb defbuf progs) s)) ci ->
+  exists t o, In (EClose t o ci) (c_trace (run (init timeout cb defbuf progs) s)).
+Proof.
+  revert ci. change (closed_logged (run (init timeout cb defbuf progs) s)).
+  apply run_lift; [exact closed_logged_step|]. intros ci (chn & H & _). destruct ci; discriminate.
+Qed.
+(* ------------------------------------------------------------------ *)
+(* OnPubTimeout is called exactly once per timeout taken with it set    *)
+(* ------------------------------------------------------------------ *)
+Definition obl_cb (k : callid) (p : pair) (q : pc) : nat :=
+  match q with PSyncCb k' _ p' _ | PGoCb k' p' _ => is_kp k' p' k p | _ => 0 end.
+Definition ev_tcb (k : callid) (p : pair) (e : event) : nat :=
+  match e with ETimeout k' p' true => is_kp k' p' k p | _ => 0 end.
+Definition ev_cb (k : callid) (p : pair) (e : event) : nat :=
+  match e with ECallback k' p' => is_kp k' p' k p | _ => 0 end.
+Definition ev_timeout (k : callid) (p : pair) (e : event) : nat :=
+  match e with ETimeout k' p' _ => is_kp k' p' k p | _ => 0 end.
+
+Definition cb_inv (c : config) : Prop :=
+  forall k p, total (fun th => obl_cb k p (th_pc th)) (c_threads c) + total (ev_cb k p) (c_trace c)
+              = total (ev_tcb k p) (c_trace c).
+
+Lemma recv_obl_cb thr ci v k p : recv_target thr = Some ci ->
+  obl_cb k p (th_pc thr) = 0 /\ obl_cb k p (th_pc (deliver thr v)) = 0 /\ obl_cb k p (th_pc (deliver_closed thr)) = 0.
+Proof.
+  intro H. destruct (recv_target_pc _ _ H) as [E|[acc E]]; unfold deliver, deliver_closed; rewrite E; cbn.
+  - destruct (th_prog thr) as [|[] ?]; cbn; rewrite ?E; cbn; repeat split; auto.
+  - repeat split; auto.
+Qed.
+Lemma starts_obl_cb th cl rest k p : starts th cl rest -> obl_cb k p (th_pc th) = 0.
+Proof. intros [[E _]|(l & E & _)]; rewrite E; auto. Qed.
+
+Ltac cb_eval E :=
+  repeat match type of E with
+  | context [obl_cb ?k ?p (th_pc (deliver ?th ?v))] =>
+      match goal with Hr : recv_target th = Some ?ci |- _ => rewrite (proj1 (proj2 (recv_obl_cb th ci v k p Hr))) in E end
+  | context [obl_cb ?k ?p (th_pc (deliver_closed ?th))] =>
+      match goal with Hr : recv_target th = Some ?ci |- _ => rewrite (proj2 (proj2 (recv_obl_cb th ci 0%Z k p Hr))) in E end
+  | context [th_pc ?th] =>
+      match goal with
+      | Hpc : th_pc th = _ |- _ => rewrite Hpc in E
+      | Hs : starts th _ _ |- _ =>
+          repeat match type of E with
+          | context [obl_cb ?k ?p (th_pc th)] => rewrite (starts_obl_cb th _ _ k p Hs) in E
+          end
+      | Hr : recv_target th = Some _ |- _ =>
+          repeat match type of E with
+          | context [obl_cb ?k ?p (th_pc th)] => rewrite (proj1 (recv_obl_cb th _ 0%Z k p Hr)) in E
+          end
+      end
+  end;
+  cbn [th_pc obl_cb] in E.
+
+Lemma cb_inv_step c t th c' :
+  c_panic c = None -> nth_error (c_threads c) t = Some th -> trans c t th c' -> cb_inv c -> cb_inv c'.
+Proof.
+  intros Hp Ht T C1.
+  assert (Lt : t < length (c_threads c)) by (eapply nth_error_some_lt; eauto).
+  destruct T; try match goal with S : send_trans _ _ _ _ _ _ _ _ _ _ |- _ => inv_send S end;
+    unfold cb_inv in *; norm.
+  all: try assumption.
+  all: intros xk xp; specialize (C1 xk xp).
+  all: try (first
+            [ match goal with |- context [total ?f (upd ?t ?th' (upd ?r ?thr' ?l))] =>
+                assert (Nr : t <> r) by
+                  (intros <-; match goal with Hr : nth_error _ t = Some ?thr |- _ => rewrite Ht in Hr; injection Hr as <- end;
+                   match goal with Hrt : recv_target ?x = Some _, Hpc : th_pc ?x = _ |- _ => unfold recv_target in Hrt; rewrite Hpc in Hrt; discriminate end);
+                match goal with Hr : nth_error _ r = Some ?thr |- _ => pose proof (total_upd2 f l t r th thr th' thr' Nr Ht Hr) as E end
+              end
+            | match goal with |- context [total ?f (upd ?t ?th' ?l ++ [?new])] =>
+                rewrite (total_app f); pose proof (total_upd f l t th th' Ht) as E
+              end
+            | match goal with |- context [total ?f (upd ?t ?th' ?l)] => pose proof (total_upd f l t th th' Ht) as E end ];
+            cbv beta in E; cb_eval E; rewrite ?total_cons; cbn [ev_cb ev_tcb th_pc obl_cb];
+            unfold pub_pc, after_send, is_kp in *; cbn [k_var fst snd] in *;
+            repeat match goal with
+            | |- context [match ?w with Async => _ | Wait => _ | Sync => _ end] => destruct w eqn:?
+            | _ : context [match ?w with Async => _ | Wait => _ | Sync => _ end] |- _ => destruct w eqn:?
+            end; cbn [obl_cb] in *; unfold is_kp in *;
+            repeat match goal with
+            | _ : context [if ?b then _ else _] |- _ => destruct b
+            | |- context [if ?b then _ else _] => destruct b
+            end; cbn [obl_cb] in *;
+            solve [congruence | lia]).
+Qed.
+
+Lemma cb_inv_run timeout cb defbuf progs s : cb_inv (run (init timeout cb defbuf progs) s).
+Proof.
+  apply run_lift; [exact cb_inv_step|]. intros k p. unfold init; cbn [c_trace c_threads].
+  rewrite total_all_zero; [reflexivity|]. intros th Hin. apply in_map_iff in Hin as (pr & <- & _). reflexivity.
+Qed.
+
+Lemma total_add {A} (f g : A -> nat) l : total (fun x => f x + g x) l = total f l + total g l.
+Proof. unfold total. induction l as [|x l IH]; cbn; [reflexivity|]. rewrite IH. lia. Qed.
+Lemma total_ext {A} (f g : A -> nat) l : (forall x, f x = g x) -> total f l = total g l.
+Proof. intro H. unfold total. induction l as [|x l IH]; cbn; [reflexivity|]. rewrite IH, H. reflexivity. Qed.
+
+Lemma obl_cb_le_done k p q : obl_cb k p q <= obl_done k p q.
+Proof. destruct q; cbn; lia. Qed.
+
+(* Each pair ends in exactly one of a delivery or a timeout, and a timeout
+   taken with OnPubTimeout set is followed by exactly one OnPubTimeout call:
+   once send() has returned for the pair (k,p), either it was handed off once
+   (no timeout, no callback), or it timed out once (no hand-off) and the
+   callback was called as many times (0 or 1) as the timeout was taken with
+   the callback set. At all times callbacks <= such timeouts <= 1. *)
+Lemma delivery_or_timeout timeout cb defbuf progs s k p :
+  let tr := c_trace (run (init timeout cb defbuf progs) s) in
+  total (ev_handoff k p) tr + total (ev_timeout k p) tr <= 1 /\
+  total (ev_cb k p) tr <= total (ev_tcb k p) tr /\ total (ev_tcb k p) tr <= total (ev_timeout k p) tr /\
+  (1 <= total (ev_done k p) tr ->
+     total (ev_handoff k p) tr + total (ev_timeout k p) tr = 1 /\ total (ev_cb k p) tr = total (ev_tcb k p) tr).
+Proof.
+  intro tr. pose proof (conservation timeout cb defbuf progs s k p) as (R1 & D1 & RD & _).
+  pose proof (cb_inv_run timeout cb defbuf progs s k p) as CB. fold tr in CB.
+  destruct (cons_inv_run timeout cb defbuf progs s) as (_ & C2). specialize (C2 k p).
+  pose proof (exp_count_le_1 timeout cb defbuf progs s k p) as E1.
+  unfold res_count, done_count, exp_count in *. fold tr in R1, D1, RD, C2, E1.
+  assert (Hsplit : total (ev_res k p) tr = total (ev_handoff k p) tr + total (ev_timeout k p) tr).
+  { rewrite <- total_add. apply total_ext. intros []; cbn; lia. }
+  assert (Htcb : total (ev_tcb k p) tr <= total (ev_timeout k p) tr).
+  { apply total_le. intros []; cbn; try lia. destruct cb0; lia. }
+  pose proof (total_le (fun th => obl_cb k p (th_pc th)) (fun th => obl_done k p (th_pc th))
+                       (c_threads (run (init timeout cb defbuf progs) s)) (fun th => obl_cb_le_done k p (th_pc th))) as L.
+  repeat split; try lia.
+Qed.
+(* ------------------------------------------------------------------ *)
+(* Timeouts happen only with a positive PubTimeoutAfter                 *)
+(* ------------------------------------------------------------------ *)
+Definition ocfg (c : config) (o : oid) : option (Z * bool) :=
+  option_map (fun ob => (o_timeout ob, o_cb ob)) (nth_error (c_objs c) o).
+
+Definition pub_on (q : pc) : option (callid * oid) :=
+  match q with PAdd k o _ _ | PLoop k o _ | PSyncCb k o _ _ => Some (k, o) | _ => None end.
+
+Definition cfg_inv (c : config) : Prop :=
+  (forall t th k p tm cb wg, nth_error (c_threads c) t = Some th -> th_pc th = PGoSend k p tm cb wg ->
+     exists o evs subs, In (ERLock k o evs subs) (c_trace c) /\ ocfg c o = Some (tm, cb)) /\
+  (forall t th k o, nth_error (c_threads c) t = Some th -> pub_on (th_pc th) = Some (k, o) ->
+     exists evs subs, In (ERLock k o evs subs) (c_trace c)) /\
+  (forall k p b, In (ETimeout k p b) (c_trace c) ->
+     exists o evs subs tm, In (ERLock k o evs subs) (c_trace c) /\ ocfg c o = Some (tm, b) /\ (0 < tm)%Z).
+
+Lemma ocfg_step c t th c' o x : trans c t th c' -> ocfg c o = Some x -> ocfg c' o = Some x.
+Proof.
+  intros T H. unfold ocfg in *.
+  destruct (nth_error (c_objs c) o) as [ob0|] eqn:Ho; [|discriminate]. cbn in H.
+  assert (Lo : o < length (c_objs c)) by (eapply nth_error_some_lt; eauto).
+  destruct T; try match goal with S : send_trans _ _ _ _ _ _ _ _ _ _ |- _ => inv_send S end; norm;
+    try (rewrite Ho; exact H).
+  all: try (rewrite nth_error_app1 by (rewrite upd_length; exact Lo)).
+  all: match goal with |- context [nth_error (upd ?o' _ _) ?o2] =>
+         destruct (Nat.eq_dec o' o2) as [E|N];
+         [subst; rewrite nth_error_upd_eq by exact Lo;
+          match goal with Ha : nth_error ?l ?x = Some ?a, Hb : nth_error ?l ?x = Some ?b |- _ =>
+            tryif constr_eq a b then fail else (rewrite Ha in Hb; injection Hb as <-) end; exact H
+         |rewrite nth_error_upd_neq by exact N; rewrite Ho; exact H]
+       end.
+Qed.
+
+Lemma pub_on_recv thr ci v : recv_target thr = Some ci ->
+  pub_on (th_pc (deliver thr v)) = None /\ pub_on (th_pc (deliver_closed thr)) = None.
+Proof.
+  intro H. destruct (recv_target_pc _ _ H) as [E|[acc E]]; unfold deliver, deliver_closed; rewrite E.
+  - destruct (th_prog thr) as [|[] ?]; cbn; rewrite ?E; cbn; auto.
+  - cbn; auto.
+Qed.
+Lemma gosend_recv thr ci v k p tm cb wg : recv_target thr = Some ci ->
+  th_pc (deliver thr v) <> PGoSend k p tm cb wg /\ th_pc (deliver_closed thr) <> PGoSend k p tm cb wg.
+Proof.
+  intro H. destruct (recv_target_pc _ _ H) as [E|[acc E]]; unfold deliver, deliver_closed; rewrite E.
+  - destruct (th_prog thr) as [|[] ?]; cbn; rewrite ?E; cbn; split; discriminate.
+  - cbn; split; discriminate.
+Qed.
+
+Lemma cfg_inv_step c t th c' :
+  c_panic c = None -> nth_error (c_threads c) t = Some th -> trans c t th c' -> cfg_inv c -> cfg_inv c'.
+Proof.
+  intros Hp Ht T (E1 & E2 & E3).
+  pose proof (fun o x => ocfg_step c t th c' o x T) as OS.
+  assert (Lt : t < length (c_threads c)) by (eapply nth_error_some_lt; eauto).
+  assert (E1' : forall t th k p tm cb wg, nth_error (c_threads c) t = Some th -> th_pc th = PGoSend k p tm cb wg ->
+     exists o evs subs, In (ERLock k o evs subs) (c_trace c) /\ ocfg c' o = Some (tm, cb)).
+  { intros. destruct (E1 _ _ _ _ _ _ _ H H0) as (o & evs & subs & Hi & Hc). eauto 8. }
+  assert (E3' : forall k p b, In (ETimeout k p b) (c_trace c) ->
+     exists o evs subs tm, In (ERLock k o evs subs) (c_trace c) /\ ocfg c' o = Some (tm, b) /\ (0 < tm)%Z).
+  { intros. destruct (E3 _ _ _ H) as (o & evs & subs & tm & Hi & Hc & Hz). eauto 10. }
+  clear E1 E3. unfold cfg_inv. remember (ocfg c') as oc eqn:Eoc.
+  assert (OC : forall o ob, nth_error (c_objs c) o = Some ob -> oc o = Some (o_timeout ob, o_cb ob)).
+  { intros o ob Ho. apply OS. unfold ocfg. rewrite Ho. reflexivity. }
+  clear OS.
+  destruct T; try match goal with S : send_trans _ _ _ _ _ _ _ _ _ _ |- _ => inv_send S end;
+    clear Eoc; norm; (split; [|split]).
+  (* E1 *)
+  all: try (intros xt xth xk xp xtm xcb xwg Hxt Hxh; lookup Hxt;
+            cbn [th_pc] in *; unfold pub_pc, after_send in *;
+            try (match type of Hxh with context [match ?w with _ => _ end] => destruct w end);
+            try (match type of Hxh with context [if ?b then _ else _] => destruct b end);
+            try discriminate;
+            try (match goal with Hr : recv_target _ = Some _ |- _ =>
+                   first [ destruct (proj1 (gosend_recv _ _ _ _ _ _ _ _ Hr) Hxh) | destruct (proj2 (gosend_recv _ _ 0%Z _ _ _ _ _ Hr) Hxh) ] end);
+            destruct (E1' _ _ _ _ _ _ _ Hxt Hxh) as (xo & xevs & xsubs & Hi & Hc);
+            exists xo, xevs, xsubs; split; [cbn [In]; auto 6|exact Hc]; fail).
+  (* E3: no new timeout event *)
+  all: try (intros xk xp xb Hxi; cbn [In] in Hxi; repeat (destruct Hxi as [Hxi|Hxi]; [discriminate|]);
+            destruct (E3' _ _ _ Hxi) as (xo & xevs & xsubs & xtm & Hi & Hc & Hz);
+            exists xo, xevs, xsubs, xtm; split; [cbn [In]; auto 6|auto]; fail).
+  (* E2 *)
+  all: try (intros xt xth xk xo Hxt Hxh; lookup Hxt;
+            cbn [th_pc pub_on] in *; unfold after_send in *;
+            try (match type of Hxh with context [if ?b then _ else _] => destruct b end);
+            cbn [pub_on] in *; try discriminate;
+            try (match goal with Hr : recv_target _ = Some _ |- _ =>
+                   first [ rewrite (proj1 (pub_on_recv _ _ _ Hr)) in Hxh | rewrite (proj2 (pub_on_recv _ _ 0%Z Hr)) in Hxh ]; discriminate end);
+            first [ destruct (E2 _ _ _ _ Hxt Hxh) as (xevs & xsubs & Hi)
+                  | injection Hxh as <- <-;
+                    match goal with Hpc : th_pc ?x = _ |- _ =>
+                      destruct (E2 t x _ _ Ht ltac:(rewrite Hpc; reflexivity)) as (xevs & xsubs & Hi) end ];
+            exists xevs, xsubs; cbn [In]; auto 6; fail).
+  - (* PubStart, E2 *)
+    intros xt xth xk xo Hxt Hxh; lookup Hxt.
+    + cbn [th_pc] in Hxh. unfold pub_pc in Hxh. destruct w; cbn [pub_on] in Hxh; injection Hxh as <- <-;
+        exists evs, (o_subs ob); left; reflexivity.
+    + destruct (E2 _ _ _ _ Hxt Hxh) as (xevs & xsubs & Hi). exists xevs, xsubs. right; exact Hi.
+  - (* sync timeout with callback *)
+    intros xk xp xb [E|Hxi].
+    + injection E as <- <- <-. destruct (E2 t th k o Ht ltac:(rewrite H; reflexivity)) as (xevs & xsubs & Hi).
+      exists o, xevs, xsubs, (o_timeout ob). split; [right; exact Hi|]. split; [|assumption].
+      rewrite (OC _ _ H0). rewrite Hcb. reflexivity.
+    + destruct (E3' _ _ _ Hxi) as (xo & xevs & xsubs & xtm & Hi & Hc & Hz). exists xo, xevs, xsubs, xtm. split; [right; exact Hi|auto].
+  - (* sync timeout without callback *)
+    intros xk xp xb [E|[E|Hxi]]; [discriminate| |].
+    + injection E as <- <- <-. destruct (E2 t th k o Ht ltac:(rewrite H; reflexivity)) as (xevs & xsubs & Hi).
+      exists o, xevs, xsubs, (o_timeout ob). split; [right; right; exact Hi|]. split; [|assumption].
+      rewrite (OC _ _ H0). rewrite Hcb. reflexivity.
+    + destruct (E3' _ _ _ Hxi) as (xo & xevs & xsubs & xtm & Hi & Hc & Hz). exists xo, xevs, xsubs, xtm. split; [right; right; exact Hi|auto].
+  - (* Spawn, E1 *)
+    intros xt xth xk xp xtm xcb xwg Hxt Hxh; lookup Hxt.
+    + cbn [th_pc] in Hxh. discriminate.
+    + destruct (E1' _ _ _ _ _ _ _ Hxt Hxh) as (xo & xevs & xsubs & Hi & Hc). eauto 8.
+    + cbn [th_pc] in Hxh. injection Hxh as <- <- <- <- _.
+      destruct (E2 t th k o Ht ltac:(rewrite H; reflexivity)) as (xevs & xsubs & Hi).
+      exists o, xevs, xsubs. split; [exact Hi|]. apply OC; assumption.
+  - (* asynchronous timeout with callback *)
+    intros xk xp xb [E|Hxi].
+    + injection E as <- <- <-. destruct (E1' _ _ _ _ _ _ _ Ht H) as (xo & xevs & xsubs & Hi & Hc).
+      exists xo, xevs, xsubs, timeout. split; [right; exact Hi|]. split; [|assumption]. rewrite Hc, Hcb. reflexivity.
+    + destruct (E3' _ _ _ Hxi) as (xo & xevs & xsubs & xtm & Hi & Hc & Hz). exists xo, xevs, xsubs, xtm. split; [right; exact Hi|auto].
+  - (* asynchronous timeout without callback *)
+    intros xk xp xb [E|[E|Hxi]]; [discriminate| |].
+    + injection E as <- <- <-. destruct (E1' _ _ _ _ _ _ _ Ht H) as (xo & xevs & xsubs & Hi & Hc).
+      exists xo, xevs, xsubs, timeout. split; [right; right; exact Hi|]. split; [|assumption]. rewrite Hc, Hcb. reflexivity.
+    + destruct (E3' _ _ _ Hxi) as (xo & xevs & xsubs & xtm & Hi & Hc & Hz). exists xo, xevs, xsubs, xtm. split; [right; right; exact Hi|auto].
+Qed.
+
+Lemma cfg_inv_run timeout cb defbuf progs s : cfg_inv (run (init timeout cb defbuf progs) s).
+Proof.
+  apply run_lift; [exact cfg_inv_step|]. unfold cfg_inv. repeat split.
+  - intros t th k p tm cb0 wg Ht E. apply init_threads_pc in Ht as [E' _]. congruence.
+  - intros t th k o Ht E. apply init_threads_pc in Ht as [E' _]. rewrite E' in E. discriminate.
+  - intros k p b [].
+Qed.
+
+Lemma total_pos_in {A} (f : A -> nat) l : 1 <= total f l -> exists x, In x l /\ 1 <= f x.
+Proof.
+  unfold total. induction l as [|x l IH]; cbn; [lia|]. intro H.
+  destruct (f x) eqn:E; [destruct (IH H) as (y & Hy & Hf); exists y; auto|]. exists x. split; auto. lia.
+Qed.
+
+(* A timeout is taken only by a call made on a PubSub with a positive
+   PubTimeoutAfter, and its flag says whether that PubSub has an OnPubTimeout.
+   Hence with PubTimeoutAfter <= 0 every finished pair was handed off, and with
+   OnPubTimeout set every timed-out finished pair got exactly one callback. *)
+Lemma timeout_needs_config timeout cb defbuf progs s k p b :
+  let c := run (init timeout cb defbuf progs) s in
+  In (ETimeout k p b) (c_trace c) ->
+  exists o evs subs tm, In (ERLock k o evs subs) (c_trace c) /\ ocfg c o = Some (tm, b) /\ (0 < tm)%Z.
+Proof. intros c H. destruct (cfg_inv_run timeout cb defbuf progs s) as (_ & _ & E3). eauto. Qed.
+
+Lemma no_timeout_means_handoff timeout cb defbuf progs s k p :
+  let c := run (init timeout cb defbuf progs) s in
+  (forall o evs subs tm b, In (ERLock k o evs subs) (c_trace c) -> ocfg c o = Some (tm, b) -> (tm <= 0)%Z) ->
+  1 <= total (ev_done k p) (c_trace c) -> total (ev_handoff k p) (c_trace c) = 1.
+Proof.
+  intros c Hcfg Hd. destruct (delivery_or_timeout timeout cb defbuf progs s k p) as (_ & _ & _ & Hfin).
+  destruct (Hfin Hd) as [Hsum _]. fold c in Hsum.
+  destruct (total (ev_timeout k p) (c_trace c)) eqn:Et; [lia|]. exfalso.
+  destruct (total_pos_in (ev_timeout k p) (c_trace c)) as (e & He & Hf); [lia|].
+  destruct e; cbn in Hf; try lia. unfold is_kp in Hf.
+  destruct (callid_eq_dec k0 k) as [->|]; [|lia]. destruct (pair_eq_dec p0 p) as [->|]; [|lia].
+  destruct (timeout_needs_config timeout cb defbuf progs s k p cb0 He) as (o & evs & subs & tm & Hi & Hc & Hz).
+  specialize (Hcfg _ _ _ _ _ Hi Hc). lia.
+Qed.
+(* ------------------------------------------------------------------ *)
+(* Sync variants resolve their pairs in publication order               *)
+(* ------------------------------------------------------------------ *)
+(* pairs of call k resolved (handed off or timed out), newest first *)
+Fixpoint res_rev (k : callid) (tr : list event) : list pair :=
+  match tr with
+  | [] => []
+  | EHandoff k' p :: older | ETimeout k' p _ :: older =>
+      if callid_eq_dec k' k then p :: res_rev k older else res_rev k older
+  | _ :: older => res_rev k older
+  end.
+
+Definition sync_at (q : pc) : option (callid * oid * list pair) :=
+  match q with PLoop k o ps | PSyncCb k o _ ps => Some (k, o, ps) | _ => None end.
+
+Definition so_inv (c : config) : Prop :=
+  forall t th k o ps, nth_error (c_threads c) t = Some th -> sync_at (th_pc th) = Some (k, o, ps) ->
+    snd (k_var k) = Sync ->
+    exists evs subs, In (ERLock k o evs subs) (c_trace c) /\
+                     rev (res_rev k (c_trace c)) ++ ps = pub_ps (fst (k_var k)) evs subs.
+
+Lemma res_rev_nil k tr : (forall p, total (ev_res k p) tr = 0) -> res_rev k tr = [].
+Proof.
+  induction tr as [|e tr IH]; intro H; [reflexivity|].
+  assert (H' : forall p, total (ev_res k p) tr = 0) by (intro p; specialize (H p); rewrite total_cons in H; lia).
+  destruct e; cbn [res_rev]; auto.
+  - destruct (callid_eq_dec k0 k) as [->|]; auto. exfalso. specialize (H p). rewrite total_cons in H. cbn in H.
+    unfold is_kp in H. destruct (callid_eq_dec k k); [|congruence]. destruct (pair_eq_dec p p); [lia|congruence].
+  - destruct (callid_eq_dec k0 k) as [->|]; auto. exfalso. specialize (H p). rewrite total_cons in H. cbn in H.
+    unfold is_kp in H. destruct (callid_eq_dec k k); [|congruence]. destruct (pair_eq_dec p p); [lia|congruence].
+Qed.
+
+Lemma exp_zero k p tr : (forall o evs subs, ~ In (ERLock k o evs subs) tr) -> total (ev_exp k p) tr = 0.
+Proof.
+  intro H. apply total_all_zero. intros e He. destruct e; cbn; auto. unfold cnt.
+  destruct (callid_eq_dec k0 k) as [->|]; auto. exfalso. eapply H; eauto.
+Qed.
+
+Lemma sync_at_recv thr ci v : recv_target thr = Some ci ->
+  sync_at (th_pc (deliver thr v)) = None /\ sync_at (th_pc (deliver_closed thr)) = None.
+Proof.
+  intro H. destruct (recv_target_pc _ _ H) as [E|[acc E]]; unfold deliver, deliver_closed; rewrite E.
+  - destruct (th_prog thr) as [|[] ?]; cbn; rewrite ?E; cbn; auto.
+  - cbn; auto.
+Qed.
+
+(* the moving thread's resolution events concern a call other than the Sync call k of another thread *)
+Lemma other_call c t th x xth k xk xo xps :
+  fresh_inv c -> go_inv c -> nth_error (c_threads c) t = Some th -> nth_error (c_threads c) x = Some xth -> t <> x ->
+  sync_at (th_pc xth) = Some (xk, xo, xps) -> snd (k_var xk) = Sync ->
+  ((exists o ps, th_pc th = PLoop k o ps) \/ (exists p tm cb wg, th_pc th = PGoSend k p tm cb wg)) ->
+  k <> xk.
+Proof.
+  intros (_ & _ & _ & F4) GI Ht Hx N Hs Hk Hpc ->.
+  assert (Hx4 : k_tid xk = x).
+  { destruct (th_pc xth) eqn:E; try discriminate; cbn in Hs; injection Hs as <- <- <-;
+      apply (F4 x xth); auto; rewrite E; reflexivity. }
+  destruct Hpc as [(o & ps & E)|(p & tm & cb & wg & E)].
+  - destruct (F4 t th xk Ht); [rewrite E; reflexivity|]. congruence.
+  - pose proof (GI t th Ht) as G. rewrite E in G. cbn in G. destruct G. congruence.
+Qed.
+
+Lemma so_inv_step c t th c' :
+  c_panic c = None -> nth_error (c_threads c) t = Some th -> trans c t th c' ->
+  cons_inv c -> fresh_inv c -> go_inv c -> wg_inv c -> so_inv c -> so_inv c'.
+Proof.
+  intros Hp Ht T CI FI GI WI SO.
+  assert (Lt : t < length (c_threads c)) by (eapply nth_error_some_lt; eauto).
+  destruct T; try match goal with S : send_trans _ _ _ _ _ _ _ _ _ _ |- _ => inv_send S end;
+    try exact SO; unfold so_inv; norm.
+  (* transitions that log no resolution event *)
+  all: try (intros xt xth xk xo xps Hxt Hxs Hxk; lookup Hxt; cbn [th_pc sync_at] in *; unfold after_send in *;
+            try (match type of Hxs with context [if ?b then _ else _] => destruct b end);
+            cbn [sync_at] in *; try discriminate;
+            try (match goal with Hr : recv_target _ = Some _ |- _ =>
+                   first [ rewrite (proj1 (sync_at_recv _ _ _ Hr)) in Hxs | rewrite (proj2 (sync_at_recv _ _ 0%Z Hr)) in Hxs ]; discriminate end);
+            first [ destruct (SO _ _ _ _ _ Hxt Hxs Hxk) as (xevs & xsubs & Hi & He)
+                  | injection Hxs as <- <- <-;
+                    match goal with Hpc : th_pc ?x = _ |- _ =>
+                      destruct (SO t x _ _ _ Ht ltac:(rewrite Hpc; reflexivity) Hxk) as (xevs & xsubs & Hi & He) end ];
+            exists xevs, xsubs; cbn [In res_rev]; split; [auto 6|exact He]; fail).
+  (* the remaining transitions; first the sub-cases "another thread's Sync call" and "not a Sync position" *)
+  all: intros xt xth xk xo xps Hxt Hxs Hxk; lookup Hxt; cbn [th_pc sync_at] in *; unfold after_send in *;
+       try (match type of Hxs with context [if ?b then _ else _] => destruct b end);
+       cbn [sync_at] in *; try discriminate;
+       try (match goal with Hr : recv_target _ = Some _ |- _ =>
+              first [ rewrite (proj1 (sync_at_recv _ _ _ Hr)) in Hxs | rewrite (proj2 (sync_at_recv _ _ 0%Z Hr)) in Hxs ]; discriminate end).
+  all: try (destruct (SO _ _ _ _ _ Hxt Hxs Hxk) as (xevs & xsubs & Hi & He); exists xevs, xsubs; split; [cbn [In]; auto 6|];
+            cbn [res_rev];
+            try (match goal with |- context [callid_eq_dec ?k1 ?k2] =>
+                   destruct (callid_eq_dec k1 k2) as [E|_];
+                   [exfalso; eapply (other_call c t th xt xth k1 k2); eauto 10|] end);
+            exact He).
+  - (* PubStart *)
+    unfold pub_pc in Hxs. destruct w; cbn [sync_at] in Hxs; try discriminate; injection Hxs as <- <- <-;
+      cbn [k_var snd] in Hxk; try discriminate.
+    exists evs, (o_subs ob). split; [left; reflexivity|]. cbn [res_rev k_var fst].
+    rewrite res_rev_nil; [reflexivity|]. intro p.
+    destruct CI as (C1 & _). specialize (C1 (CallId t (length (th_rets th)) (sl, Sync)) p).
+    unfold res_count, exp_count in C1. rewrite exp_zero in C1; [lia|].
+    intros o1 evs1 subs1 Hi. destruct FI as (F1 & _). specialize (F1 _ _ _ _ Hi).
+    unfold call_state_ok in F1. cbn [k_tid k_n] in F1. rewrite Ht in F1. destruct F1 as [F|[_ F]]; [lia|].
+    destruct H as [[E _]|(l & E & _)]; rewrite E in F; destruct F.
+  - (* Add: a Wait call, not Sync *)
+    injection Hxs as <- <- <-. destruct WI as (_ & G2 & _). destruct (G2 _ _ _ _ _ _ Ht H). congruence.
+  - (* synchronous send into the buffer *)
+    injection Hxs as <- <- <-. destruct (SO t th k o (p :: ps) Ht ltac:(rewrite H; reflexivity) Hxk) as (xevs & xsubs & Hi & He).
+    exists xevs, xsubs. split; [right; right; exact Hi|]. cbn [res_rev]. destruct (callid_eq_dec k k); [|congruence].
+    cbn [rev]. rewrite <- app_assoc. exact He.
+  - (* synchronous rendezvous *)
+    injection Hxs as <- <- <-. destruct (SO t th k o (p :: ps) Ht ltac:(rewrite H; reflexivity) Hxk) as (xevs & xsubs & Hi & He).
+    exists xevs, xsubs. split; [right; right; right; exact Hi|]. cbn [res_rev]. destruct (callid_eq_dec k k); [|congruence].
+    cbn [rev]. rewrite <- app_assoc. exact He.
+  - (* synchronous timeout, callback pending *)
+    injection Hxs as <- <- <-. destruct (SO t th k o (p :: ps) Ht ltac:(rewrite H; reflexivity) Hxk) as (xevs & xsubs & Hi & He).
+    exists xevs, xsubs. split; [right; exact Hi|]. cbn [res_rev]. destruct (callid_eq_dec k k); [|congruence].
+    cbn [rev]. rewrite <- app_assoc. exact He.
+  - (* synchronous timeout, no callback *)
+    injection Hxs as <- <- <-. destruct (SO t th k o (p :: ps) Ht ltac:(rewrite H; reflexivity) Hxk) as (xevs & xsubs & Hi & He).
+    exists xevs, xsubs. split; [right; right; exact Hi|]. cbn [res_rev]. destruct (callid_eq_dec k k); [|congruence].
+    cbn [rev]. rewrite <- app_assoc. exact He.
+  - (* Spawn: not a Sync call *)
+    injection Hxs as <- <- <-. congruence.
+  - (* the callback of a synchronous timeout *)
+    injection Hxs as <- <- <-. destruct (SO t th k o ps Ht ltac:(rewrite H; reflexivity) Hxk) as (xevs & xsubs & Hi & He).
+    exists xevs, xsubs. split; [right; right; exact Hi|]. exact He.
+Qed.
+
+Lemma so_inv_run timeout cb defbuf progs s : so_inv (run (init timeout cb defbuf progs) s).
+Proof.
+  induction s as [|[t ch] s IH] using rev_ind.
+  - intros t th k o ps Ht E. apply init_threads_pc in Ht as [E' _]. rewrite E' in E. discriminate.
+  - rewrite run_app. cbn [run]. unfold step_or_stay. cbn [fst snd].
+    destruct (step (run (init timeout cb defbuf progs) s) t ch) as [c'|] eqn:E; [|auto].
+    apply step_trans in E as (Hp & th & Ht & T). eapply so_inv_step; eauto.
+    + apply cons_inv_run. + apply fresh_inv_run. + apply go_inv_run. + apply wg_inv_run.
+Qed.
+
+(* When a PubSync/PubSliceSync call returns, the pairs it resolved (handed off,
+   or timed out), in the order in which it resolved them, are exactly the pairs
+   built at its read-lock step in publication order: for each event of the
+   slice in order, every subscriber in subscription order. In particular each
+   subscriber is handed its events in publication order. *)
+Definition sync_ok (tr : list event) : Prop :=
+  forall later k earlier, tr = later ++ EPubRet k :: earlier -> snd (k_var k) = Sync ->
+    exists o evs subs, In (ERLock k o evs subs) earlier /\
+                       rev (res_rev k earlier) = pub_ps (fst (k_var k)) evs subs.
+
+Lemma sync_ok_cons_other e tr : (forall k, e <> EPubRet k) -> sync_ok tr -> sync_ok (e :: tr).
+Proof.
+  intros Hn H later k earlier E Hk. destruct later as [|e' later]; cbn in E; injection E as -> E.
+  - exfalso. eapply Hn; reflexivity.
+  - eapply H; eauto.
+Qed.
+Lemma sync_ok_cons_ret k tr :
+  (snd (k_var k) = Sync -> exists o evs subs, In (ERLock k o evs subs) tr /\ rev (res_rev k tr) = pub_ps (fst (k_var k)) evs subs) ->
+  sync_ok tr -> sync_ok (EPubRet k :: tr).
+Proof.
+  intros Hd H later k' earlier E Hk. destruct later as [|e' later]; cbn in E; injection E as E1 E2.
+  - subst. apply Hd; auto.
+  - subst. eapply H; eauto.
+Qed.
+
+Lemma sync_ok_step c t th c' :
+  c_panic c = None -> nth_error (c_threads c) t = Some th -> trans c t th c' ->
+  go_inv c -> so_inv c -> sync_ok (c_trace c) -> sync_ok (c_trace c').
+Proof.
+  intros Hp Ht T GI SO R.
+  destruct T; try match goal with S : send_trans _ _ _ _ _ _ _ _ _ _ |- _ => inv_send S end; norm; auto.
+  all: repeat (apply sync_ok_cons_other; [intros ? ?; discriminate|]); auto.
+  - apply sync_ok_cons_ret; auto. intros Hk.
+    destruct (SO t th k o [] Ht ltac:(rewrite H; reflexivity) Hk) as (evs & subs & Hi & He).
+    rewrite app_nil_r in He. eauto.
+  - apply sync_ok_cons_ret; auto. intros Hk. pose proof (GI t th Ht) as G. rewrite H in G. cbn in G. congruence.
+Qed.
+
+Lemma sync_order timeout cb defbuf progs s later k earlier :
+  c_trace (run (init timeout cb defbuf progs) s) = later ++ EPubRet k :: earlier ->
+  snd (k_var k) = Sync ->
+  exists o evs subs, In (ERLock k o evs subs) earlier /\
+                     rev (res_rev k earlier) = pub_ps (fst (k_var k)) evs subs.
+Proof.
+  revert later k earlier. change (sync_ok (c_trace (run (init timeout cb defbuf progs) s))).
+  induction s as [|[t ch] s IH] using rev_ind.
+  - intros later k earlier E. destruct later; discriminate.
+  - rewrite run_app. cbn [run]. unfold step_or_stay. cbn [fst snd].
+    destruct (step (run (init timeout cb defbuf progs) s) t ch) as [c'|] eqn:E; [|auto].
+    apply step_trans in E as (Hp & th & Ht & T). eapply sync_ok_step; eauto.
+    + apply go_inv_run. + apply so_inv_run.
+Qed.
